@@ -64,6 +64,29 @@ func clntRotateCtor(c *clntCase, n *int) {
 	if !c.ctorSet {
 		c.ctor = (*n*7 + *n/5) % clntCtors[c.kind]
 	}
+	if c.ctor == 4 {
+		return
+	}
+	// ... with hooks implemented on a pointer, on a struct value or on a func type
+	c.hookKind = (*n / 3) % 3
+	// ... and with the transport's deadline / end-of-stream errors in their different dynamic shapes
+	// (bare sentinel, *net.OpError with Timeout(), wrapped with %w)
+	vary := func(steps []clntStep, salt int) []clntStep {
+		out := append([]clntStep(nil), steps...)
+		for i := range out {
+			switch out[i].rd {
+			case clntRdTimeout:
+				out[i].rd = []int{clntRdTimeout, clntRdTimeoutBare, clntRdTimeoutWrapped}[(*n+i+salt)%3]
+			case clntRdEOF:
+				out[i].rd = []int{clntRdEOF, clntRdEOFWrapped}[(*n+i+salt)%2]
+			}
+		}
+		return out
+	}
+	c.sc.steps = vary(c.sc.steps, 0)
+	for j := range c.ops {
+		c.ops[j].sc.steps = vary(c.ops[j].sc.steps, j)
+	}
 }
 
 // ---------- requests ----------
@@ -1211,9 +1234,92 @@ func clntGenLateException(r *rng, f func(c *clntCase)) {
 	}
 }
 
+// clntGenWrapIndex: replies of 257..260 bytes for the RTU clients whose BEGINNING is consistent although
+// the whole is not: bytes [n-258, n-256) hold the CRC of the bytes before them (what a check with an
+// 8-bit trailer index would look at).  The network client hands up to 260 bytes to the parser, the
+// serial client refuses them as too long.
+func clntGenWrapIndex(r *rng, f func(c *clntCase)) {
+	i := 0
+	crc := func(b []byte) []byte { c := packet.CRC16(b); return []byte{byte(c), byte(c >> 8)} }
+	for kind := 1; kind < 3; kind++ {
+		for ctor := 0; ctor < clntCtors[kind]; ctor++ {
+			emit := func(q *clntRq, b []byte, cuts ...int) {
+				i++
+				tail := clntTail()
+				if kind == 1 {
+					tail = []clntStep{clntEOF(nil)}
+				}
+				f(&clntCase{kind: kind, conn: true, flusher: i%4 == 0, hooks: i%2 == 0, rq: q,
+					sc: clntScript{steps: append(clntCutAs(b, clntClassMixes[i%4], cuts...), tail...)}, ctor: ctor, ctorSet: true})
+			}
+			// FC17, any unit: server id length / first id byte = CRC16(unit, 0x11), noise up to n bytes
+			for k := 0; k < 6; k++ {
+				q := clntMkRq(r, 17, 1, k%4)
+				for _, n := range []int{257, 258, 259, 260} {
+					b := append([]byte{q.unit, 0x11}, crc([]byte{q.unit, 0x11})...)
+					b = append(b, r.bytes(n-len(b))...)
+					emit(q, b)
+					emit(q, b, 1)
+					// the same with a consistent real trailer on the first 255 bytes
+					b2 := append([]byte(nil), b...)
+					copy(b2[253:], crc(b2[:253]))
+					emit(q, b2)
+				}
+			}
+			// FC1-4, FC23 with the units for which the low CRC byte of (unit, fc) is 0xFF: the maximum reply
+			// with the byte count raised from 250 to 255 and 5 bytes appended is 260 bytes long and
+			// bytes 2..3 are the CRC of bytes 0..1
+			for _, fc := range []int{1, 2, 3, 4} {
+				for u := 0; u < 256; u++ {
+					c := crc([]byte{byte(u), byte(fc)})
+					if c[0] != 0xFF {
+						continue
+					}
+					q := clntMkRq(r, fc, 1, 3)
+					q.unit = uint8(u)
+					q.cargs[1] = I(u)
+					switch fc {
+					case 1:
+						q.req = clntMust(packet.NewReadCoilsRequestRTU(q.unit, q.addr, q.qty))
+					case 2:
+						q.req = clntMust(packet.NewReadDiscreteInputsRequestRTU(q.unit, q.addr, q.qty))
+					case 3:
+						q.req = clntMust(packet.NewReadHoldingRegistersRequestRTU(q.unit, q.addr, q.qty))
+					case 4:
+						q.req = clntMust(packet.NewReadInputRegistersRequestRTU(q.unit, q.addr, q.qty))
+					}
+					d := r.bytes(255)
+					d[0] = c[1]
+					b := append([]byte{q.unit, byte(fc), 255}, d...)
+					b = append(b, r.bytes(2)...) // 260 bytes, trailer arbitrary
+					emit(q, b)
+					emit(q, b, 100)
+					emit(q, b, 253)
+				}
+			}
+			// generic: any request type, n = 258..260, the wrapped index made consistent
+			for _, fc := range fcs {
+				q := clntMkRq(r, fc, 1, 3)
+				for _, n := range []int{258, 259, 260} {
+					b := append([]byte(nil), q.reply(r).bytes...)
+					if len(b) > n {
+						b = b[:n]
+					}
+					b = append(b, r.bytes(n-len(b))...)
+					idx := n - 258
+					copy(b[idx:], crc(b[:idx]))
+					emit(q, b)
+					emit(q, b, 3)
+				}
+			}
+		}
+	}
+}
+
 func clntGenC12(r *rng, thorough bool, f func(c *clntCase)) {
 	clntGenExtended(r, []int{1, 2}, f)
 	clntGenLateException(r, f)
+	clntGenWrapIndex(r, f)
 	i := 0
 	deliver := func(kind int, q *clntRq, m []byte) {
 		tail := clntTail()
